@@ -59,7 +59,7 @@ CHECKS = {
              "Eng are both executed by the driver on every generated program and compared with the real engine (both geometries, both backends, "
              "both consistency modes).",
              note=BASE_NOTE + "Scope of the theorem: one process lifetime (restart = C06), sequential callers (C05), every I/O succeeds (C04/C07), single entries "
-             "<= MAX_ALLOC (open finding sealThenAllocFail beyond). AEng abstracts files/allocator/trackers/index (they are in Eng); the AEng<->Eng<->implementation "
+             "<= MAX_ALLOC (finding sealThenAllocFail beyond, repaired: larger entries are rejected before any state changes). AEng abstracts files/allocator/trackers/index (they are in Eng); the AEng<->Eng<->implementation "
              "tie is the correspondence run, not a theorem. Payload bytes are opaque values (byte-identity = same value returned).",
              tech="Lean 4 proof (refinement of a FIFO spec by induction over operation sequences) + translator + differential correspondence + oracle", ref="§6 C01"),
  "C02": dict(text="C02_batch_peek_equals_consume / C02_next_peek_equals_consume (a peek returns what the consuming read returns), "
@@ -73,8 +73,8 @@ CHECKS = {
  "C15": dict(text="C15_inprocess: after ANY operation sequence (any topics, rejected operations, both read APIs, peeks, offset reads) `count` reports "
              "(entries of successful appends) - (entries returned by consuming reads), both computed from the history itself; C15_peeks_not_counted. "
              "Restart clause: partial - decided by correspondence (Eng recovery scan + count rebuild vs the real engine) and the oracle on restart "
-             "histories; violations in the regions of the open findings emptyBlockAllocated / scanStopsAtEmptyBlock / clockRegressionReordersFiles / "
-             "sealThenAllocFail are reported as KNOWN-FINDING.",
+             "histories; violations in the regions of the open findings emptyBlockAllocated / scanStopsAtEmptyBlock / clockRegressionReordersFiles "
+             "are reported as KNOWN-FINDING (sealThenAllocFail is repaired).",
              note=BASE_NOTE + "In-process theorem on the entry-level model AEng (tied by correspondence). The restart clause has no theorem yet.",
              tech="Lean 4 proof (corollary of the FIFO refinement, induction over histories) + differential correspondence + oracle", ref="§6 C15"),
  "C17": dict(text="Full-strength theorem C17_markers over the storage-level model Eng: along ANY history of engine operations (appends and batches incl. rejected "
@@ -101,8 +101,8 @@ CHECKS = {
              "C06_next_after_restart, C06_batch_after_restart for every reachable state. The restart transformation of AEngR is tied to startup_chore (scan, "
              "synthetic ids, index hydration) by the correspondence: Eng.openInst and the real engine run the same ~600 restart histories per quick run and must "
              "agree with AEngR operation by operation across every restart. Not proved: the recovery scan itself; AtLeastOnce restarts (oracle only). False on this "
-             "tree in four regions, reported as KNOWN-FINDING with corpus witnesses: emptyBlockAllocated, scanStopsAtEmptyBlock, clockRegressionReordersFiles "
-             "(the statement's 'any wall-clock behaviour'), sealThenAllocFail.",
+             "tree in three regions, reported as KNOWN-FINDING with corpus witnesses: emptyBlockAllocated, scanStopsAtEmptyBlock, clockRegressionReordersFiles "
+             "(the statement's 'any wall-clock behaviour'); a fourth, sealThenAllocFail, is repaired.",
              note=BASE_NOTE + "Scope of the theorem: histories on which no trigger of the four open findings fires (friendlyFrom, monotone clock, entries <= MAX_ALLOC), StrictlyAtOnce, "
              "sequential callers, clean shutdown. The driver stops comparing AEngR at the first trigger; from there on only Eng (which reproduces the defects) is compared.",
              tech="Lean 4 proof (refinement of the FIFO spec extended with restart events; induction over histories) + differential correspondence across restarts + oracle", ref="§6 C06"),
@@ -113,7 +113,7 @@ CHECKS = {
              "C04_counterexample_rollbackKeepsNewBlock (open finding, replayed on the real engine on every run). Correspondence: ~600 programs per quick run with injected "
              "failures of entry writes / io_uring completions / submission at every position of 1-6 entry batches, all rejection causes, restarts; independent oracle.",
              note=BASE_NOTE + "Faults are injected by hook H1 (cfg walrus_verif): the mmap path fails before the write, the io_uring path overrides the completion result after the write. "
-             "The 'after a restart' clause is decided by correspondence/oracle (open findings emptyBlockAllocated, scanStopsAtEmptyBlock); > MAX_ALLOC entries: sealThenAllocFail. "
+             "The 'after a restart' clause is decided by correspondence/oracle (open findings emptyBlockAllocated, scanStopsAtEmptyBlock); > MAX_ALLOC entries are rejected up front since the sealThenAllocFail repair. "
              "Concurrent observers of a batch in flight are C05. After rollbackKeepsNewBlock fired, implementation/model divergences (panic in `limit - offset`) are tolerated and counted.",
              tech="Lean 4 proof (corollaries of the FIFO refinement; unfolding of the batch write path under an injected fault) + fault-injection correspondence + oracle", ref="§6 C04"),
  "C07": dict(text="Partial. Crash model: `kill` (death between operations) and `crashAt kind n fd op` (death inside op, immediately before its n-th I/O event; hook H1 performs _exit at exactly "
